@@ -2555,6 +2555,10 @@ func (c *connection) read(conn net.Conn, buf *lib.Buffer) (*lib.Buffer, error) {
 		}
 
 		l := int(binary.BigEndian.Uint32(buf.B[2:6]))
+		if l < 8 {
+			// a frame is never shorter than its header
+			return nil, gen.ErrMalformed
+		}
 
 		if c.node_maxmessagesize > 0 && l > c.node_maxmessagesize {
 			return nil, fmt.Errorf("received too long message (len: %d, limit: %d)", l, c.node_maxmessagesize)
